@@ -51,6 +51,7 @@ def L1_tokens(ctx, rid, core, G):
     ctx.inst(rid, "binary-token-tables", n_tables >= 1, "%d BinaryOp -> token table(s) found in the printers" % n_tables, None)
     # unary: what the builder maps each grammar prefix rule to
     builder = core.hir_fn(CORE + "expressions::pairs_to_expr_inner")["body"]
+    c10.CRATE[0] = core
     mp = c10.rule_match(c10.closure_of(builder, "map_prefix"))
     produced = {}
     for a in mp["arms"]:
@@ -515,6 +516,7 @@ def C09_drivers(ctx, rid, core, cli, wasm, G):
 def C09_builder_slots(ctx, rid, core, G):
     ctx.rule(rid, "the AST builder consumes every comment-bearing child slot the grammar gives list, record, do_block and their items, and appends tail comments after the member's own trailing comment", floor=8)
     builder = core.hir_fn(CORE + "expressions::pairs_to_expr_inner")["body"]
+    c10.CRATE[0] = core
     mprim = c10.rule_match(c10.closure_of(builder, "map_primary"))
     arms = {}
     for a in mprim["arms"]:
